@@ -4,4 +4,5 @@ package drivers
 var Registry = map[string]func(args []string){
 	"dispatch": Dispatch,
 	"admission": Admission,
+	"hub": Hub,
 }
